@@ -16,8 +16,9 @@ ASSUME = [
 KNOWN_STALE = "stale-notifications-delivered-after-reopen"
 
 
-def stream_consts(s=1, a=1, n=1, wire=1, send=4, reopen=1, mut="none", fixed=False, known=True):
-    return {"S": s, "A": a, "N": n, "WireCap": wire, "MaxSend": send, "MaxReopen": reopen, "Mut": mut, "Fixed": fixed, "KnownStale": known}
+def stream_consts(s=1, a=1, n=1, wire=1, send=4, reopen=1, mut="none", fixed=False, known=True, sink=2, sizes=("small", "over")):
+    return {"S": s, "A": a, "N": n, "WireCap": wire, "SinkCap": sink, "MaxSend": send, "MaxReopen": reopen, "Mut": mut, "Fixed": fixed,
+            "KnownStale": known, "Sizes": set(sizes)}
 
 
 MC_LINES = ["SPECIFICATION Spec", "INVARIANTS LedgerOK NoLoss Bounded", "VIEW View", "CHECK_DEADLOCK FALSE"]
@@ -25,8 +26,13 @@ MC_LINES = ["SPECIFICATION Spec", "INVARIANTS LedgerOK NoLoss Bounded", "VIEW Vi
 
 def model_check(ctx):
     runs = [("cap1", stream_consts()), ("cap2", stream_consts(2, 2, 2, 2)), ("mixed", stream_consts(1, 2, 2, 1)),
-            ("cap2-repaired", stream_consts(2, 2, 2, 2, fixed=True, known=False))]
+            ("cap2-repaired", stream_consts(2, 2, 2, 2, fixed=True, known=False)),
+            # frames that need two writes (partial write, remainder parked) behind / in front of other frames
+            ("partial-writes", stream_consts(2, 2, 2, 2, send=3, reopen=1, sizes=("small", "big"))),
+            ("partial-writes-wire1", stream_consts(1, 2, 2, 1, send=3, reopen=0, sizes=("small", "big"), sink=1)),
+            ("sizes-all", stream_consts(2, 2, 2, 2, send=4, reopen=0, sizes=("small", "big", "over")))]
     if not ctx.quick():
+        runs += [("partial-writes-send4", stream_consts(2, 2, 2, 2, send=4, reopen=1, sizes=("small", "big"), sink=3))]
         runs += [("cap2-send5", stream_consts(2, 2, 2, 2, send=5)), ("s2a1n1w2", stream_consts(2, 1, 1, 2, send=5)),
                  ("s1a2n2w2-repaired", stream_consts(1, 2, 2, 2, send=5, fixed=True, known=False))]
     out = []
@@ -44,11 +50,12 @@ def generate(ctx):
     gl = ["SPECIFICATION Spec", "VIEW View", "ACTION_CONSTRAINT Emit", "CHECK_DEADLOCK FALSE"]
     rng = random.Random(ctx.seed)
     scripts, stats = [], []
-    for name, consts in [("gen1", stream_consts(1, 1, 1, 1, send=3)), ("gen2", stream_consts(2, 1, 1, 1, send=4))]:
+    for name, consts in [("gen1", stream_consts(1, 1, 1, 1, send=3)), ("gen2", stream_consts(2, 1, 1, 1, send=4)),
+                         ("gen-big", stream_consts(2, 2, 2, 2, send=3, reopen=0, sizes=("small", "big")))]:
         behs, g = tlc_generate(ctx, "NotifStreamMC.tla", write_cfg(ctx, "s%s.cfg" % name, consts, gl), timeout=3000)
         keyed = {}
         for b in behs:
-            keyed.setdefault(tuple((s["a"], s.get("over")) for s in b), b)
+            keyed.setdefault(tuple((s["a"], s.get("sz")) for s in b), b)
         keys = sorted(keyed, key=lambda k: (-len(k), str(k)))
         longest = [k for k in keys if len(k) >= len(keys[0]) - 1]
         rng.shuffle(longest)
@@ -274,7 +281,8 @@ def selftest(ctx):
     mutate("unknown-delivered", unknown, "delivered a notification that was never accepted")
     mutate("clog-below-capacity", spurious_clog, "clogged although the synchronous channel cannot be full")
     # (b) negative model configurations: seeded defects / unknown tag must break an invariant
-    for name, consts in [("drop_parked", stream_consts(1, 1, 1, 1, mut="drop_parked")), ("dup_write", stream_consts(2, 2, 2, 3, mut="dup_write")),
+    for name, consts in [("drop_parked", stream_consts(1, 1, 1, 1, mut="drop_parked", sink=1)), ("dup_write", stream_consts(2, 2, 2, 3, mut="dup_write", sink=3)),
+                         ("requeue_back", stream_consts(2, 2, 2, 2, send=3, reopen=0, sizes=("small", "big"), mut="requeue_back")),
                          ("stale-untagged", stream_consts(2, 2, 2, 2, known=False))]:
         r = tlc_mc(ctx, "NotifStreamMC.tla", write_cfg(ctx, "neg_%s.cfg" % name, consts, MC_LINES), workers=4, timeout=600, expect_violation=True)
         log("selftest negative model %-16s -> %s" % (name, "invariant violated OK" if not r["ok"] else "FAILED"))
